@@ -6,7 +6,7 @@ import re
 
 from ..loader import AnchorError, dotted, is_self_attr, parent, short, src, walk_no_nested
 from ..resolve import Resolver
-from ..rules import cfg_of, guard_facts, where
+from ..rules import cfg_of, guard_facts, where, class_table_mutations
 
 RB = "operon_ai/organelles/ribosome.py"
 FILES = [RB]
@@ -411,6 +411,16 @@ def run(p, led, tier):
     led.rule("C12-R3", "a memo of rendered text is keyed on everything the rendering reads (the whole binding dictionary)", 0)
     if n_cache == 0:
         led.ok("C12-R3", "Ribosome ▸ rendering keeps no memo between calls", RB, f"{len(reach)} functions on the rendering path write no keyed state", nontrivial=False)
+    # ---------------- R6 what one renderer registers (filters, templates) does not change how another renders
+    led.rule("C12-R6", "no renderer instance writes into a table that lives on the class (its filter / template tables are its own)", 0)
+    muts = class_table_mutations(rib)
+    for m_, n_, t_, via in muts:
+        led.fail("C12-R6", f"{m_.qual} ▸ `{short(n_, 60)}`", where(m_, n_),
+                 f"the class-level table `{t_}` is modified {via}: a filter or template registered on one Ribosome changes what `{{{{x|word}}}}` means on every other one "
+                 f"(`word` is read as a filter instead of a default)",
+                 witness="Ribosome(filters={'w': f}); then another Ribosome renders {{user|w}} with user unbound: the tag is left in place instead of the default 'w'")
+    if not muts:
+        led.ok("C12-R6", "Ribosome ▸ instance tables", RB, "no method writes into a class-level container, directly or through an uncopied alias", nontrivial=False)
 
 
 
